@@ -143,8 +143,11 @@ def t4(F, rep):
             for v, tgt in st["targets"]:
                 for bb in sorted(g.reachable_from(tgt)):
                     for s in g.stmts(bb):
-                        if s["k"] == "assign" and s["p"]["l"] == 0 and s["r"]["k"] == "agg" and s["r"].get("ak") == "tuple" and g.edge_dominates(sb, tgt, bb):
-                            amap[str(v)] = [flow.const_eval(g, o) for o in s["r"]["ops"]]
+                        # the pair built for this discriminant: returned at once, or collected in a local first
+                        if s["k"] == "assign" and not s["p"]["p"] and s["r"]["k"] == "agg" and len(s["r"].get("ops", [])) == 2 and g.edge_dominates(sb, tgt, bb):
+                            vals = [flow.const_eval(g, o) for o in s["r"]["ops"]]
+                            if all(x is not None for x in vals):
+                                amap[str(v)] = vals
     rep.add("T4", "repeat-code-adjustments", amap == SPEC["repeat_codes"], "%s:%s" % (g.file, g.line), "discriminant -> (subtract, bits): %s (RFC: %s)" % (amap, SPEC["repeat_codes"]))
     # symbol -> tree code mapping in the reader
     sm = {}
@@ -209,7 +212,25 @@ def t5(F, rep):
                     continue
                 n += 1
                 m = t["callee"].get("def", "").split("::")[-1]
-                if m != "read_u8":
+                one_byte = False
+                if m == "read_exact" and len(t["args"]) == 2:
+                    # read_exact(&mut [0u8; 1]) is what read_u8 does
+                    bo = flow.origin(fb, t["args"][1])
+                    tys = {fb.local_ty(x) for x in getattr(bo, "locals", set())} if hasattr(bo, "locals") else set()
+                    dsc = flow.describe(fb, t["args"][1])
+                    ap2 = op_place(t["args"][1])
+                    cur2, hops2 = ap2, 0
+                    while cur2 is not None and hops2 < 5:
+                        ty2 = flow.strip_lifetimes(fb.local_ty(cur2["l"]))
+                        if re.search(r"\[u8; 1\]", ty2):
+                            one_byte = True
+                            break
+                        d2 = fb.single_def(cur2["l"])
+                        if not d2 or d2[2] != "assign":
+                            break
+                        cur2 = op_place(d2[3]["op"]) if d2[3]["k"] in ("use", "cast") else (d2[3]["place"] if d2[3]["k"] in ("ref", "rawptr") else None)
+                        hops2 += 1
+                if m != "read_u8" and not one_byte:
                     bad.append("%s calls %s on binary_reader" % (name.split("::")[-1], m))
     rep.add("T5", "bit-reader-single-byte-reads", n >= 2 and not bad, "src/bit_reader.rs", "%d uses of binary_reader, all read_u8 (no read-ahead)" % n if not bad else "; ".join(bad))
 
